@@ -1,5 +1,5 @@
 (* C15/Driver.v — entry points of the correspondence run (extracted to OCaml). *)
-From RM Require Import C15.Model C15.Schema C15.Widths C15.Utf8 C15.Pretty C15.Scalar.
+From RM Require Import C15.Model C15.Schema C15.Widths C15.Utf8 C15.Pretty C15.Scalar C15.Regs.
 From RM Require C19.Model.
 Open Scope Z_scope.
 
@@ -39,6 +39,10 @@ Definition flip_confidence_bits (b : flip) : Z :=
 
 (* the hypotheses of c15_schema_conformance / c15_address_widths / c15_report_valid, evaluated on a real process state *)
 Definition wf_ok (s : state) : bool := wf_state s && regs_named_ok (s_registers s) && state_scalar s.
+
+(* the registers of the requesting thread's frame 0 come from the register file of its raw context kind (c15_register_tables) *)
+Definition regs_ok (kind : Z) (s : state) : bool :=
+  match s_registers s with [] => true | _ :: _ => regs_from_table kind (s_registers s) end.
 
 (* the theorem's conclusion evaluated on the REAL output: the model's parser reads the real document and the
    Gallina checker judges it against the schema regenerated from json-schema.md *)
